@@ -16,6 +16,7 @@ func init() {
 			{Name: "aggregates", Quick: 2500, Thorough: 120000, Run: func(c *Ctx) { c11Aggregates(c, false) }},
 			{Name: "cow-shared-full-chunks", Quick: 600, Thorough: 30000, Run: c11CowShapes},
 			{Name: "andany-scratch-paths", Quick: 1500, Thorough: 60000, Run: c11AndAnyScratch},
+			{Name: "partitions-of-a-target-union", Quick: 1500, Thorough: 60000, Run: c11Partitions},
 			{Name: "paror64-top-of-bucket-space", Quick: 400, Thorough: 20000, Run: c11ParOr64Top},
 		},
 	})
@@ -598,4 +599,112 @@ func c11ParOr64Top(c *Ctx) {
 			return
 		}
 	}
+}
+
+// exactCardChunk returns a chunk (intervals inside [0,65535]) holding exactly n values, as one run,
+// a few runs, or scattered values.
+func exactCardChunk(r *Rng, n int) *ISet {
+	s := NewISet()
+	switch r.Intn(3) {
+	case 0:
+		lo := r.Range(0, uint64(65536-n))
+		if r.Chance(0.4) {
+			lo = []uint64{0, uint64(65536 - n)}[r.Intn(2)]
+		}
+		s.AddRange(lo, lo+uint64(n)-1)
+	case 1:
+		left := uint64(n)
+		pos := r.Range(0, 64)
+		for left > 0 && pos < 65536 {
+			l := minU(left, r.Range(1, uint64(n)/2+1))
+			if pos+l > 65536 {
+				break
+			}
+			s.AddRange(pos, pos+l-1)
+			left -= l
+			pos += l + r.Range(1, 64)
+		}
+		if s.Card() != uint64(n) {
+			return ivsToSet(spreadN(r, n))
+		}
+	default:
+		return ivsToSet(spreadN(r, n))
+	}
+	return s
+}
+
+// c11Partitions: the members are an (overlapping) partition of a chosen target union whose chunks sit
+// exactly on representation thresholds (65536, 65535, 32768, 16384, 4097, 4096, 4095 values); every
+// union-type aggregate must give back the target. Members meet in every order and kind pairing.
+func c11Partitions(c *Ctx) {
+	r := c.R
+	keys := genKeys(r, 1+r.Intn(3))
+	target := NewISet()
+	for _, k := range keys {
+		n := []int{65536, 65536, 65535, 32768, 32768, 16384, 8192, 4097, 4096, 4095}[r.Intn(10)]
+		ch := exactCardChunk(r, n)
+		if n == 65535 {
+			ch = ISetOf(IV{0, 65535})
+			ch.Remove(edgeVal16(r))
+		}
+		for _, v := range ch.iv {
+			target.AddRange(k<<16|v.Lo, k<<16|v.Hi)
+		}
+	}
+	nm := 2 + r.Intn(4)
+	parts := make([]*ISet, nm)
+	for i := range parts {
+		parts[i] = NewISet()
+	}
+	// deal the pieces of every chunk to the members; pieces are runs, single values or scattered subsets
+	for _, v := range splitAtChunks(target.iv) {
+		lo := v.Lo
+		for lo <= v.Hi {
+			hi := v.Hi
+			switch r.Intn(4) {
+			case 0:
+				hi = lo // a single value
+			case 1:
+				hi = minU(v.Hi, lo+r.Range(0, 5000))
+			}
+			i := r.Intn(nm)
+			parts[i].AddRange(lo, hi)
+			if r.Chance(0.2) {
+				parts[r.Intn(nm)].AddRange(lo, hi)
+			}
+			lo = hi + 1
+		}
+	}
+	// optionally one member is "everything but a few values" and another one holds exactly those
+	if r.Chance(0.4) && nm >= 2 && !target.IsEmpty() {
+		holes := NewISet()
+		for i := 0; i < 1+r.Intn(3); i++ {
+			x, _ := target.Select(r.U64n(target.Card()))
+			holes.Add(x)
+		}
+		parts[0] = target.AndNot(holes)
+		parts[1] = holes
+	}
+	a := &aggMembers{w: []int{1, 2, 3, 4}[r.Intn(4)], place: "partition"}
+	for i, pm := range parts {
+		f := []string{"range", "opt", "addmany", "add", "cowclone", "frombuffer", "mixed"}[r.Intn(7)]
+		bm, es := buildForm(r, pm, f)
+		if es != "" {
+			c.Fail("build/"+f, "%s", es)
+			return
+		}
+		a.bms = append(a.bms, bm)
+		a.list = append(a.list, bm.B)
+		a.desc = append(a.desc, fmt.Sprintf("#%d %s card=%d", i, f, pm.Card()))
+	}
+	if len(keys) > 0 {
+		a.base, a.span = keys[0], keys[len(keys)-1]-keys[0]+1
+	}
+	c.Step("target union %v dealt to %d members: %v", descSet(target), nm, a.desc)
+	c.Distinct(mix(target.Hash(), hashStr(fmt.Sprint(a.desc))))
+	v := a.bms[0].B.VerifView()
+	for _, s := range v.Slots {
+		c.Count("partition_member0_chunk_" + kindName[s.Kind])
+	}
+	aggBattery(c, a, false)
 }
